@@ -29,7 +29,7 @@ theorem RelP.of_rel {m : State} {j : Mon} (h : Rel m j) (hn : j.now = m.now) : R
    fun x hx => (by cases hx), List.nodup_nil⟩
 
 /-- one assignment of a burst that changes the value -/
-theorem assignP_rel (pend pend' : List Nat) (m : State) (j : Mon) (x : Nat) (val : Int) (v0 : Var) (g : Var → Var)
+theorem assignP_rel (pend pend' : List Nat) (m : State) (j : Mon) (x : Nat) (val : Val) (v0 : Var) (g : Var → Var)
     (h : RelP pend m j) (hx : m.vars[x]? = some v0)
     (hg : ∀ v, (g v).evented = v.evented ∧ (g v).rate = v.rate ∧ (g v).value = v.value ∧ (g v).lastSent = v.lastSent)
     (hd : ∀ f, (g { v0 with value := some val }).deferred = some f →
@@ -111,7 +111,7 @@ theorem assignP_rel (pend pend' : List Nat) (m : State) (j : Mon) (x : Nat) (val
       exact fun e => hn (e ▸ ha)
 
 /-- the assignments of a burst, one after the other -/
-theorem assignMany_ok : ∀ (l : List (Nat × Int)) (m : State) (pend : List Nat) (j : Mon), RelP pend m j →
+theorem assignMany_ok : ∀ (l : List (Nat × Val)) (m : State) (pend : List Nat) (j : Mon), RelP pend m j →
     RelP (assignMany m pend l).2 (assignMany m pend l).1 (l.foldl (fun j p => j.assign p.1 p.2) j) := by
   intro l
   induction l with
@@ -318,7 +318,7 @@ theorem flush_ok (m : State) (j : Mon) (D : List Nat) (h : RelP D m j) :
       rw [hl hpos, t6, h.cur, ← hmapV, List.getElem?_map, hv']; rfl
   · rw [bnow]; exact Int.le_refl _
 
-theorem setMany_ok (m : State) (j : Mon) (l : List (Nat × Int)) (h : Rel m j) (hn : j.now = m.now) :
+theorem setMany_ok (m : State) (j : Mon) (l : List (Nat × Val)) (h : Rel m j) (hn : j.now = m.now) :
     Rel (setMany m l).1 ((j.beginOp (.setMany l)).obsRun (setMany m l).2) := by
   show Rel (flush (assignMany m [] l).1 (assignMany m [] l).2).1
     ((l.foldl (fun j p => j.assign p.1 p.2) j).obsRun (flush (assignMany m [] l).1 (assignMany m [] l).2).2)
